@@ -242,3 +242,69 @@ Proof.
   destruct (py_sem (table_of tt) Hw evs gv) as (prog & HP & HRun).
   exists L, prog. split; [exact HL|]. split; [exact HR|]. split; [apply gen_py_split|]. split; [exact HP|exact HRun].
 Qed.
+
+(* ---------------------------------------------------------------- the constructor's lines (filterInitialState) *)
+Lemma py_init16_shape : py_init16 =
+  [Text "    def __init__(self, controller):";
+   InitLine [Lit "        self.context.On"; Tag "STATE_0" None; Lit "Entry(EventStartup())"];
+   InitLine [Lit "        self.currentState = XStateId.c"; Tag "STATE_0" None]].
+Proof. vm_compute. reflexivity. Qed.
+
+Lemma py_init16_checked : py_init16_opt = Some py_init16.
+Proof. vm_compute. reflexivity. Qed.
+
+Lemma py_init16_in_grammar : in_grammar16 py_init16 = true.
+Proof. vm_compute. reflexivity. Qed.
+
+Theorem py_init_reads (t : table) structs protos msgs :
+  reads_all "X" (flat_map (ref_item16 (elements_of t structs protos msgs)) py_init16) (gen_init t) = true.
+Proof.
+  rewrite py_init16_shape. unfold gen_init. cbn [flat_map ref_item16 el_first elements_of app].
+  apply Forall2_reads_all. repeat (constructor; [line_eq|]). constructor.
+Qed.
+
+Lemma first_state_ident (t : table) : wf_table t = true -> ident_ok (getfirststate t) = true.
+Proof.
+  intros H. pose proof (wf_table_rows t H) as Hr. destruct t as [|r t]; [discriminate|]. cbn [getfirststate forallb] in *.
+  apply andb_prop in Hr as [Hr _]. unfold row_ok in Hr. do 4 (apply andb_prop in Hr as [Hr _]). exact Hr.
+Qed.
+
+Lemma py_init16_wf (t : table) structs protos msgs :
+  wf_table t = true -> wf_elements16 py_init16 (elements_of t structs protos msgs) = true.
+Proof.
+  intros H. rewrite py_init16_shape. unfold wf_elements16. cbn [forallb item16_wf el_first elements_of].
+  unfold init_table. change ([("STATE_0", getfirststate t); ("state_0", camel (getfirststate t))]) with
+    (firstn 2 (family "STATE_0" "state_0" "" (getfirststate t))).
+  pose proof (ident_family "STATE_0" "state_0" "" _ (first_state_ident t H)) as F. unfold family in *. cbn [forallb snd firstn] in *.
+  apply andb_prop in F as [F1 F]. apply andb_prop in F as [F2 _]. rewrite F1, F2. reflexivity.
+Qed.
+
+Theorem py_engine_init_reads tt structs protos msgs m dict :
+  tt_model tt structs protos msgs = Some m -> dict_ok dict = true -> wf_table (table_of tt) = true ->
+  exists L0, engine16 m dict py_init16 = Some (concat_lines (map tab4 L0)) /\ reads_all "X" L0 (gen_init (table_of tt)) = true.
+Proof.
+  intros Hm Hd Hw. exists (flat_map (ref_item16 (elements_of (table_of tt) structs protos msgs)) py_init16). split.
+  - apply engine_lines_gen; [exact py_init16_in_grammar| |exact Hm|exact Hd].
+    exact (py_init16_wf (table_of tt) structs protos msgs Hw).
+  - apply py_init_reads.
+Qed.
+
+(* C08_sem about everything gen_py consists of: the constructor's lines and the process part, both as the engine writes them *)
+Theorem py_sem_engine_full tt structs protos msgs m dict :
+  tt_model tt structs protos msgs = Some m -> dict_ok dict = true -> wf_table (table_of tt) = true -> forall evs gv,
+  exists L0 L prog,
+    engine16 m dict py_init16 = Some (concat_lines (map tab4 L0))
+    /\ engine16 m dict py_proc16 = Some (concat_lines (map tab4 L))
+    /\ reads_all "X" (L0 ++ L) (gen_py (table_of tt)) = true
+    /\ parse_indent (gen_py (table_of tt)) = Some prog
+    /\ run_py prog evs gv = Some (table_interp (table_of tt) evs gv).
+Proof.
+  intros Hm Hd Hw evs gv.
+  destruct (py_engine_init_reads tt structs protos msgs m dict Hm Hd Hw) as (L0 & H0 & R0).
+  destruct (py_engine_reads tt structs protos msgs m dict Hm Hd Hw) as (L & HL & HR).
+  destruct (py_sem (table_of tt) Hw evs gv) as (prog & HP & HRun).
+  exists L0, L, prog. split; [exact H0|]. split; [exact HL|]. split; [|split; [exact HP|exact HRun]].
+  rewrite gen_py_split. fold (gen_init (table_of tt)).
+  clear -R0 HR. revert R0. generalize (gen_init (table_of tt)). induction L0 as [|s L0 IH]; intros [|g G] R0; try discriminate; [exact HR|].
+  cbn [reads_all app] in *. apply andb_prop in R0 as [A B]. rewrite A. exact (IH G B).
+Qed.
